@@ -13,6 +13,9 @@ package main
 //   line table: every line that is ever written (id = its "n" field, stream = its "stream" field)
 //   steps     C f      create file f (empty)                A f hex  append bytes to file f
 //             R f g    rename file f away, create g at its old path      T f   truncate f to 0
+//             DS f hex (while down) delete file f; a new file with the SAME inode number and content hex is staged
+//                      outside the watched directory (inode reuse; `bad-harness` if the filesystem does not reuse it)
+//             MV f     (while up) move the staged file f into the watched directory: a late file
 //             RO f g   move file f out of the watched directory, create g at its old path
 //             O f      move file f out of the watched directory          D f   unlink f (a hard link outside the directory keeps it observable)
 //             U        start file.d (a child process)       X        the child kills itself (SIGKILL)
@@ -31,7 +34,8 @@ package main
 //   output in the last run; cls 0 = at some crash the line's stream is absent from the saved offsets of its
 //   file and the line ends at or before the minimum saved offset, 1 = anything else.
 //
-// records: up | disc f | scan | new f | app f hex | ren f g | trunc f | away f (f left the watched directory) |
+// records: reuse f (f's inode now belongs to a new, empty, staged file) | back f (staged f enters the directory) |
+//   up | disc f | scan | new f | app f hex | ren f g | trunc f | away f (f left the watched directory) |
 //   gone f (an away file has no job any more) | in f off pass | out f off seq id |
 //   ack f off id | com f off id | eof f size | idle | stuck | crash | saved f n (streamhex off)… | died
 
@@ -121,8 +125,11 @@ func parseC03(t *hx.Toks) (*c03Case, bool) {
 		op := t.Next()
 		s := c03Step{op: op}
 		switch op {
-		case "C", "T", "O", "D":
+		case "C", "T", "O", "D", "MV":
 			s.f = t.Int()
+		case "DS":
+			s.f = t.Int()
+			s.data = t.Bytes()
 		case "A":
 			s.f = t.Int()
 			s.data = t.Bytes()
@@ -160,9 +167,51 @@ func c03Paths(c *c03Case, logs string, upto int) map[int]string {
 			p[s.g] = old
 		case "O", "D":
 			p[s.f] = c03AwayPath(logs, s.f)
+		case "DS":
+			p[s.f] = c03StagePath(logs, s.f)
+		case "MV":
+			p[s.f] = filepath.Join(logs, fmt.Sprintf("s%d.log", s.f))
 		}
 	}
 	return p
+}
+
+func c03StagePath(logs string, f int) string {
+	return filepath.Join(filepath.Dir(logs), "stage", fmt.Sprintf("f%d", f))
+}
+
+var errNoInodeReuse = fmt.Errorf("inode number not reused")
+
+// delete the file at path and create a new file with the same inode number (the filesystem hands a freed
+// inode number to one of the next files created in the same directory), holding `data`, at `staged`
+func c03ReuseInode(path, staged string, data []byte) error {
+	ino, ok := c03Inode(path)
+	if !ok {
+		return fmt.Errorf("no such file")
+	}
+	if err := os.MkdirAll(filepath.Dir(staged), 0o755); err != nil {
+		return err
+	}
+	if err := os.Remove(path); err != nil {
+		return err
+	}
+	var junk []string
+	defer func() {
+		for _, j := range junk {
+			_ = os.Remove(j)
+		}
+	}()
+	for k := 0; k < 20; k++ {
+		tmp := fmt.Sprintf("%s.reuse%d", path, k)
+		if err := os.WriteFile(tmp, data, 0o644); err != nil {
+			return err
+		}
+		if got, _ := c03Inode(tmp); got == ino {
+			return os.Rename(tmp, staged)
+		}
+		junk = append(junk, tmp) // kept until the end so that the next attempt gets another number
+	}
+	return errNoInodeReuse
 }
 
 // where a file that left the watched directory lives (a sibling directory)
@@ -215,6 +264,18 @@ func c03FileOp(s c03Step, paths map[int]string, logs string) error {
 		return f.Close()
 	case "T":
 		return os.Truncate(paths[s.f], 0)
+	case "DS":
+		staged := c03StagePath(logs, s.f)
+		if err := c03ReuseInode(paths[s.f], staged, s.data); err != nil {
+			return err
+		}
+		paths[s.f] = staged
+	case "MV":
+		nw := filepath.Join(logs, fmt.Sprintf("s%d.log", s.f))
+		if err := os.Rename(paths[s.f], nw); err != nil {
+			return err
+		}
+		paths[s.f] = nw
 	case "RO", "O", "D":
 		old := paths[s.f]
 		nw := c03AwayPath(logs, s.f)
@@ -258,6 +319,10 @@ func c03FileRec(s c03Step) string {
 		return fmt.Sprintf("away %d ren %d %d", s.f, s.f, s.g)
 	case "O", "D":
 		return fmt.Sprintf("away %d", s.f)
+	case "DS":
+		return fmt.Sprintf("reuse %d app %d %s", s.f, s.f, hx.Enc(s.data))
+	case "MV":
+		return fmt.Sprintf("back %d", s.f)
 	}
 	return ""
 }
@@ -360,6 +425,12 @@ func (v *c03View) apply(rec string) {
 		if len(t) >= 5 && t[2] == "ren" {
 			v.content[atoi(t[4])] = []byte{}
 		}
+	case "reuse":
+		v.content[atoi(t[1])] = []byte{}
+		if len(t) >= 5 && t[2] == "app" {
+			d, _ := hx.Dec(t[4])
+			v.content[atoi(t[1])] = d
+		}
 	case "trunc":
 		v.content[atoi(t[1])] = []byte{}
 	case "ack":
@@ -415,8 +486,11 @@ func execC03(t *hx.Toks) string {
 	for pos < len(c.steps) {
 		s := c.steps[pos]
 		switch s.op {
-		case "C", "A", "R", "T", "RO", "O", "D":
+		case "C", "A", "R", "T", "RO", "O", "D", "DS":
 			if err := c03FileOp(s, paths, logs); err != nil {
+				if err == errNoInodeReuse {
+					return "bad-harness" // the family needs a filesystem that reuses inode numbers
+				}
 				return "bad-case"
 			}
 			add(c03FileRec(s))
@@ -446,6 +520,9 @@ func execC03(t *hx.Toks) string {
 					old := paths[f]
 					paths[f] = old + fmt.Sprintf(".r%d", g)
 					paths[g] = old
+				case "back":
+					f, _ := strconv.Atoi(tk[1])
+					paths[f] = filepath.Join(logs, fmt.Sprintf("s%d.log", f))
 				case "away":
 					f, _ := strconv.Atoi(tk[1])
 					old := paths[f]
@@ -523,7 +600,7 @@ func execC03(t *hx.Toks) string {
 			nfile := 0
 			for _, l := range lines {
 				switch strings.Fields(l)[0] {
-				case "new", "app", "ren", "trunc", "away":
+				case "new", "app", "ren", "trunc", "away", "back":
 					nfile++
 				}
 			}
@@ -1170,7 +1247,7 @@ func c03ChildMain(dir string, run int) {
 			h.die()
 		}
 		switch s.op {
-		case "C", "A", "R", "T", "RO", "O", "D":
+		case "C", "A", "R", "T", "RO", "O", "D", "MV":
 			s := s
 			h.rec(false, func() {
 				if err := c03FileOp(s, h.paths, logs); err != nil {
@@ -1188,6 +1265,9 @@ func c03ChildMain(dir string, run int) {
 			}
 			if s.op == "R" || s.op == "RO" {
 				h.rec(false, nil, "disc %d", s.g)
+			}
+			if s.op == "MV" {
+				h.rec(false, nil, "disc %d", s.f)
 			}
 		case "W":
 			if !h.waitIdle(false) {
